@@ -12,6 +12,7 @@ import (
 
 	"verifharness/internal/asm"
 	"verifharness/internal/c06"
+	"verifharness/internal/c29"
 	"verifharness/internal/hx"
 )
 
@@ -135,6 +136,67 @@ func runLibOnce(cfg *asm.Config, oc obsCfg) ([]uint64, map[string]any) {
 	return fp, info
 }
 
+type netIn struct {
+	Kind string    `json:"kind"` // "net"
+	Net  c29.Input `json:"net"`
+}
+
+type netObs struct {
+	name                         string
+	compHook, stat, portHook, ev bool
+}
+
+var netObsCfgs = []netObs{
+	{name: "bare"},
+	{name: "hook on every switch/endpoint component", compHook: true},
+	{name: "stat tracers on every switch/endpoint", stat: true},
+	{name: "hook on every network port", portHook: true},
+	{name: "engine hook", ev: true},
+	{name: "all", compHook: true, stat: true, portHook: true, ev: true},
+}
+
+// runNetOnce runs a real network (switches, endpoints, scripted devices) under one observer
+// configuration; the fingerprint holds no generated ID.
+func runNetOnce(in c29.Input, oc netObs) ([]uint64, map[string]any) {
+	n := c29.BuildNet(in)
+	hooks := 0
+	var named []tracing.NamedHookable
+	for _, c := range n.Comps {
+		if nh, ok := c.(tracing.NamedHookable); ok {
+			named = append(named, nh)
+		}
+	}
+	if oc.compHook {
+		for _, c := range named {
+			c.AcceptHook(&countHook{})
+			hooks++
+		}
+	}
+	if oc.stat {
+		all := func(tracing.TaskStart) bool { return true }
+		tt, at := tracing.NewTotalTimeTracer(all), tracing.NewAverageTimeTracer(all)
+		bt, tc := tracing.NewBusyTimeTracer(all), tracing.NewTagCountTracer(all)
+		for _, c := range named {
+			tracing.CollectTrace(c, tt)
+			tracing.CollectTrace(c, at)
+			tracing.CollectTrace(c, bt)
+			tracing.CollectTrace(c, tc)
+		}
+	}
+	if oc.portHook {
+		for _, p := range n.Ports {
+			p.AcceptHook(&countHook{})
+			hooks++
+		}
+	}
+	if oc.ev {
+		n.Engine.AcceptHook(&idEater{2, 1})
+	}
+	n.Run()
+	return n.Fingerprint(), map[string]any{"deliveries": n.Deliveries(), "end": uint64(n.Engine.CurrentTime()),
+		"components": len(named), "hooks": hooks}
+}
+
 type kindOnly struct {
 	Kind string `json:"kind"`
 }
@@ -182,6 +244,30 @@ func run(raw json.RawMessage) (hx.Case, error) {
 		c.Nontrivial = true
 		c.Tags = []string{"lib:" + in.Cfg.Kind}
 		return c, nil
+	case "net":
+		var in netIn
+		if err := hx.UJ(raw, &in); err != nil {
+			return hx.Case{}, err
+		}
+		var fps []string
+		infos := map[string]any{}
+		deliveries := 0
+		for _, oc := range netObsCfgs {
+			var fp []uint64
+			var info map[string]any
+			if p, msg := hx.Try(func() { fp, info = runNetOnce(in.Net, oc) }); p {
+				fp = []uint64{999999999, asm.H62(msg)}
+				info = map[string]any{"panic": msg}
+			} else if d, ok := info["deliveries"].(int); ok {
+				deliveries = d
+			}
+			fps = append(fps, hx.LN(fp))
+			infos[oc.name] = info
+		}
+		c := hx.Case{Obs: infos, Coq: hx.App("ObsLib", hx.L(fps))}
+		c.Nontrivial = deliveries >= 2
+		c.Tags = []string{"net:" + in.Net.Topo}
+		return c, nil
 	}
 	return hx.Case{}, fmt.Errorf("unknown kind %q", k.Kind)
 }
@@ -217,6 +303,17 @@ func gen(r *hx.Rand, tier string) []json.RawMessage {
 	for i := 0; i < nLib; i++ {
 		out = append(out, hx.J(libIn{Kind: "lib", Cfg: asm.GenConfig(r, asm.Kinds[i%len(asm.Kinds)], nops)}))
 	}
+	// real networks (switches + endpoints): directed contention for one output port, then every family
+	for _, ch := range []int{1, 2} {
+		out = append(out, hx.J(netIn{Kind: "net", Net: c29.ContendedNet(r, 2+ch, ch)}))
+	}
+	nNet := 10
+	if tier == "thorough" {
+		nNet = 100
+	}
+	for i := 0; i < nNet; i++ {
+		out = append(out, hx.J(netIn{Kind: "net", Net: c29.GenNet(r, i)}))
+	}
 	return out
 }
 
@@ -228,7 +325,7 @@ func init() {
 			"before/after every event (full traces with IDs compared with the model); library assemblies (ideal, wt, wb, wt+wb, banked, " +
 			"virtual-memory stack) run under 8 observer configurations (bare standalone registrar with no hook anywhere, default simulation with tracing off, engine hook, ID-eating hook, four aggregate tracers on every " +
 			"component, DB tracer + port buffer tracing, a hook on every state buffer/pipeline inside component State, all); a third of the assemblies have a second driver competing for the same connection, a third a control history (pause/drain/flush/reset/enable) in the middle of traffic and their fingerprints (responses with data and times in order, end time, " +
-			"final backing-memory image at every touched line) compared. Non-trivial: script with >= 3 events and an observer consuming >= 1 ID per event; every library case.",
+			"final backing-memory image at every touched line) compared; real networks (one-switch contention for an output port, generic graphs, PCIe trees, NVLink hybrids, 2D/3D meshes with scripted devices) run bare, with a hook on every switch/endpoint component, with the four aggregate tracers on them, with a hook on every network port, with an engine hook, and with all of these, and their fingerprints (every hand-over and arrival at a device port with its time and metadata, end time) compared. Non-trivial: script with >= 3 events and an observer consuming >= 1 ID per event; every library case.",
 		Gen: gen, Run: run, Shrink: shrink,
 	})
 }
